@@ -2,6 +2,7 @@ package types
 
 import (
 	"fmt"
+	sdk "github.com/cosmos/cosmos-sdk/types"
 	"sort"
 
 	codectypes "github.com/cosmos/cosmos-sdk/codec/types"
@@ -169,6 +170,22 @@ func (gs GenesisState) Validate() error {
 
 		}
 
+	}
+
+	// the relayer registry is imported entry by entry (an empty address would panic in the store):
+	// same rules as a RegisterRelayerProposal
+	for i, relayer := range gs.Relayers {
+		if _, err := sdk.AccAddressFromBech32(relayer.Address); err != nil {
+			return fmt.Errorf("invalid relayer address %s index %d: %w", relayer.Address, i, err)
+		}
+		if len(relayer.Addresses) == 0 || len(relayer.Addresses) != len(relayer.Chains) {
+			return fmt.Errorf("relayer %s index %d: %d chains but %d addresses", relayer.Address, i, len(relayer.Chains), len(relayer.Addresses))
+		}
+		for _, chain := range relayer.Chains {
+			if err := host.ClientIdentifierValidator(chain); err != nil {
+				return fmt.Errorf("relayer %s index %d: invalid chain name %s: %w", relayer.Address, i, chain, err)
+			}
+		}
 	}
 
 	return host.ClientIdentifierValidator(gs.NativeChainName)
